@@ -97,6 +97,7 @@ func c02Case(c *Ctx) *Result {
 	}
 	if fam == "paced" {
 		nsess = 1
+		lat = 0 // every ack is back before the next write: the sender never overshoots the advertised window
 	}
 	plans := make([]*SessPlan, nsess)
 	var keys []uint64
@@ -164,7 +165,7 @@ func c02Case(c *Ctx) *Result {
 			p.GapMs[d] = nil
 			for k := 0; k < 5000; k++ {
 				p.W[d] = append(p.W[d], 100)
-				p.GapMs[d] = append(p.GapMs[d], 2)
+				p.GapMs[d] = append(p.GapMs[d], 5)
 			}
 			p.W[1-d] = []int{10}
 			p.GapMs[1-d] = nil
